@@ -35,6 +35,8 @@ pub struct SvcConfig {
     pub local_seq: u64,
     pub register_events: bool,
     pub incoming_bucket_limit: Option<usize>,
+    /// None: the crate's default (1 h); Some(None): permanent bans; Some(Some(d)): bans of duration d
+    pub ban_duration: Option<Option<Duration>>,
 }
 
 impl Default for SvcConfig {
@@ -52,6 +54,7 @@ impl Default for SvcConfig {
             local_seq: 1,
             register_events: true,
             incoming_bucket_limit: None,
+            ban_duration: None,
         }
     }
 }
@@ -214,6 +217,9 @@ impl Svc {
         }
         if let Some(l) = cfg.incoming_bucket_limit {
             cb.incoming_bucket_limit(l);
+        }
+        if let Some(b) = cfg.ban_duration {
+            cb.ban_duration(b);
         }
         cb.auto_nat_listen_duration(None);
         let config = cb.build();
